@@ -1,7 +1,7 @@
-from ..streams import loads
+from ..streams import loads, jac_wingbox
 from ..oracles import c16
 
-STREAMS = [loads.stream_weight_cg, loads.stream_dist_loads, loads.stream_point_loads]
+STREAMS = [loads.stream_weight_cg, loads.stream_dist_loads, loads.stream_point_loads, jac_wingbox.stream_section_properties_wingbox]
 ORACLES = [c16.oracle_loads]
 UNPROVED = []
 ASSUMPTIONS = [
